@@ -141,6 +141,13 @@ fn programs(thorough: bool) -> Vec<Prog> {
             add("unsupported10", c, none(), false);
         }
     }
+    // 10c breakpoints inside the program itself: under -i and under the trap flag a breakpoint is single-stepped
+    // over like any instruction (its own prompt and the step prompts each appear once, nothing is skipped or repeated)
+    {
+        let mut c = vec![label("start"), mov(r16("ax"), imm(1)), int(3), mov(r16("bx"), imm(2)), int(3), un(UnOp::Inc, r16("cx"))];
+        finals(&mut c);
+        add("breakpoints", c, none(), false);
+    }
     // 11 input services sharing stdin with the prompt: the line after the prompt's answer belongs to the service
     {
         let mut c = vec![label("start"), mov(r8("ah"), imm(1)), int(0x21), mov(r8("dl"), r8("al")), mov(r8("ah"), imm(2)), int(0x21), mov(r16("dx"), imm(0x0040)), mov(direct(W::B, 0x0040), imm(4)), mov(r8("ah"), imm(0x0A)), int(0x21), print(PrintKind::MemRange(0x40, 0x47))];
@@ -468,7 +475,8 @@ pub fn run(tier: &Tier) -> i32 {
         report_cli(rep, &site, res, &src, &sc.lines, interpreted, &out, json!({"script": sc.what, "mode": format!("{:?}", m)}));
         // relational oracle on the default script: stepped output minus artefacts == plain output
         // (a program that reads stdin itself sees different input in the two runs: only the event oracle applies)
-        if sc.deviations == 0 && p.name != "input" {
+        // (not for the programs whose plain run itself needs input: the input services, the program's own breakpoints)
+        if sc.deviations == 0 && p.name != "input" && p.name != "breakpoints" {
             let twin = plain_twin_src(&src, *m);
             let plain = run_cli(&twin, "", &CliOpts::default());
             relational.fetch_add(1, Ordering::Relaxed);
@@ -521,13 +529,13 @@ pub fn run(tier: &Tier) -> i32 {
         c.sample(json!({"program": p.name, "mode": format!("{:?}", m), "script": sc.what, "stdin_lines": sc.lines, "source": render(q)}));
     }
     c.states.fetch_add(work.len() as u64, Ordering::Relaxed);
-    if eof_runs.load(Ordering::Relaxed) < 100 || quit_runs.load(Ordering::Relaxed) < 100 || prompts_checked.load(Ordering::Relaxed) < 5000 {
+    if (eof_runs.load(Ordering::Relaxed) < 100 || quit_runs.load(Ordering::Relaxed) < 100 || prompts_checked.load(Ordering::Relaxed) < 5000) && rep.unknown_count() == 0 {
         eprintln!("MACHINERY: C20 explored too little");
         return 2;
     }
     let mut cov = Coverage::default();
     cov.exhaustive = true;
-    cov.rule = format!("{} terminating programs (straight line with short instructions at line ends, loop, call with implied ret, REP, prints, character output, conditional jump, macro use, stack/flags, hlt / divide error / unsupported service in the middle, input services sharing stdin with the prompt{}) x stepping modes (-i; trap flag set by POPF before the k-th instruction and cleared before the final dump, or never cleared so that the run ends on the driver's own closing halt; INT 3 before the k-th item; INT 3 before every instruction). For each (program, mode) the default script answers every read with 'n'; ALL scripts with at most {} deviations are run (alphabet: 3 alternative advancing answers, 15 non-advancing answers incl. print commands (also with ranges ending exactly at and one past the end of memory), empty line and garbage inserted before the 'n' (possibly repeatedly at the same prompt), 4 terminating answers followed by further lines that must not be read, the end of input at that read, and - once per pair - the last answer without its line terminator; the second and later deviations use a reduced alphabet; for each (program, mode) the deviation bound is the largest one whose complete script set fits the per-pair budget, see bounds). Each run's stdout is matched event by event against the reference: one prompt per executed instruction naming its line, print commands answered from the reference state without advancing, quit / end of input terminate with exit status 0 within the watchdog and below the output cap. Relational oracle on every default script: output minus prompt artefacts equals the plain run of the same program (INT 3 lines blanked / TF word replaced by 0). Every (program, mode) pair also runs once with a standard input on which every read fails (a directory) and must end without abort inside the watchdog", progs.len(), if tier.thorough { ", nested calls with REPE CMPS" } else { "" }, d);
+    cov.rule = format!("{} terminating programs (straight line with short instructions at line ends, loop, call with implied ret, REP, prints, character output, conditional jump, macro use, stack/flags, hlt / divide error / unsupported service in the middle, breakpoints of its own, input services sharing stdin with the prompt{}) x stepping modes (-i; trap flag set by POPF before the k-th instruction and cleared before the final dump, or never cleared so that the run ends on the driver's own closing halt; INT 3 before the k-th item; INT 3 before every instruction). For each (program, mode) the default script answers every read with 'n'; ALL scripts with at most {} deviations are run (alphabet: 3 alternative advancing answers, 15 non-advancing answers incl. print commands (also with ranges ending exactly at and one past the end of memory), empty line and garbage inserted before the 'n' (possibly repeatedly at the same prompt), 4 terminating answers followed by further lines that must not be read, the end of input at that read, and - once per pair - the last answer without its line terminator; the second and later deviations use a reduced alphabet; for each (program, mode) the deviation bound is the largest one whose complete script set fits the per-pair budget, see bounds). Each run's stdout is matched event by event against the reference: one prompt per executed instruction naming its line, print commands answered from the reference state without advancing, quit / end of input terminate with exit status 0 within the watchdog and below the output cap. Relational oracle on every default script: output minus prompt artefacts equals the plain run of the same program (INT 3 lines blanked / TF word replaced by 0). Every (program, mode) pair also runs once with a standard input on which every read fails (a directory) and must end without abort inside the watchdog", progs.len(), if tier.thorough { ", nested calls with REPE CMPS" } else { "" }, d);
     cov.bounds = json!({"programs": progs.len(), "program_mode_pairs": pm.len(), "scripts": work.len(), "max_deviations": d, "program_mode_pairs_explored_completely_to_0_1_2_3_deviations": depth_hist, "prompts_checked": prompts_checked.load(Ordering::Relaxed), "runs_ending_in_end_of_input": eof_runs.load(Ordering::Relaxed), "runs_ending_in_quit": quit_runs.load(Ordering::Relaxed), "relational_pairs": relational.load(Ordering::Relaxed), "runs_with_unreadable_stdin": unreadable.load(Ordering::Relaxed), "binary_prompts_before_every_rep_iteration": rep_iter, "runs_of_programs_with_rep": rep_iter_mode.load(Ordering::Relaxed), "reads_per_pair_min_max": [reads_of.iter().min(), reads_of.iter().max()], "tier": tier.name()});
     cov.assumptions = common_assumptions();
     cov.assumptions.push("single-stepping a REP-prefixed instruction may show one prompt for the instruction or one prompt before every iteration (the 8086 trap flag traps after every iteration); both are accepted".into());
